@@ -353,7 +353,7 @@ def getanchor_build(d, writer=None):
     w = (writer or gdef_writer)(d)
     anchor = None
     if d.get("given"):
-        pool = [a for g in w.context.orderedGlyphSet.values() for a in g.anchors]
+        pool = [a for g in w.getOrderedGlyphSet().values() for a in g.anchors]
         anchor = pool[d["given"] % len(pool)] if pool else None
     return {"self": w, "glyphName": d["g"], "anchorName": d["a"], "anchor": anchor}
 
